@@ -161,3 +161,4 @@ def shards(tier):
 
 SUBCHECKS = [SubCheck("pointcharge", judge, shards, strategy=lambda sh: case_st(sh["la"], sh["lb"]))]
 EXHAUSTIVE = {"l_pairs": "all 36 ordered (l_a,l_b) in 0..5"}
+EXPECTED_CLASSES = ["pointcharge/charge-on-centre", "pointcharge/charge-almost-on-centre", "pointcharge/charge-boys-target", "pointcharge/charge-far", "pointcharge/boysT-1e1", "pointcharge/boysT-1e4"]
